@@ -147,6 +147,8 @@ func firstRequest() []byte {
 	return got
 }
 
+var junkSeq = -1
+
 func stallPeer(kind, point, addr string, first []byte) (func(), error) {
 	var c net.Conn
 	var err error
@@ -203,10 +205,17 @@ func stallPeer(kind, point, addr string, first []byte) (func(), error) {
 		_, _ = c.Write(first[:len(first)/2])
 	case "garbage":
 		_, _ = c.Write([]byte("\x00\x01\x02 garbage without a line end "))
-	case "httpget", "hangup", "tlsonplain":
+	case "httpget", "hangup", "tlsonplain", "junk":
 		// peers whose handshake fails outright and who are gone afterwards: a plain HTTP probe, a connect-and-hang-up,
 		// a TLS hello on a plain endpoint.  Nothing is left of them when the well-behaved client arrives.
 		switch point {
+		case "junk":
+			// malformed first lines of every shape a line parser can trip over
+			junk := []string{"GET /\r\n\r\n", "HELO\r\n\r\n", "\r\n\r\n", " \r\n\r\n", "  \r\n\r\n", "X-SOCKETACE\r\n\r\n", "X-SOCKETACE /\r\n\r\n",
+				"GET / HTTP/1.1 and more words\r\n\r\n", "X-SOCKETACE / HTTP/1.1\r\nno colon here\r\n\r\n", "X-SOCKETACE / HTTP/1.1\r\n: empty name\r\n\r\n",
+				strings.Repeat("A", 5000) + "\r\n\r\n", "\x00\r\n\r\n", "GET\t/\tHTTP/1.1\r\n\r\n", "X-SOCKETACE / HTTP/1.1\n\n", "X-SOCKETACE / HTTP/1.1\r\nAccepts-Protocol-Version\r\n\r\n"}
+			junkSeq++
+			_, _ = c.Write([]byte(junk[junkSeq%len(junk)]))
 		case "httpget":
 			_, _ = c.Write([]byte("GET / HTTP/1.1\r\nHost: localhost\r\n\r\n"))
 		case "tlsonplain":
@@ -335,6 +344,7 @@ func (stallComp) Gen(r *Rand, tier string, emit func(string)) {
 	emit("udp connect 1")
 	// the established client's session is held while the peers stay stalled (any handshake watchdog or deadline the
 	// server arms for the stalled peers expires meanwhile)
+	emit("tcp junk 15")
 	emit("tcp httpget 6")
 	emit("tcp hangup 6")
 	emit("unix httpget 5")
@@ -351,6 +361,9 @@ func (stallComp) Gen(r *Rand, tier string, emit func(string)) {
 		emit("tcp connect 2 45 gf")
 		emit("tcp garbage 1 65 sf")
 		emit("tcp tlsonplain 8")
+		emit("tcptls junk 15")
+		emit("unix junk 15")
+		emit("udp junk 15")
 		emit("ws httpget 8")
 		emit("tcptls httpget 8")
 		emit("udp httpget 5")
